@@ -212,6 +212,7 @@ M("C13", "c13_pruned_block_selection", ["Block::generate_consensus_values (async
 M("C13", "c13_nft_group_not_split", ["Block::generate_consensus_values (async body, rebroadcast section: collection pass and regrouping pass)"], "block loaded from disk a symbolic input: one transaction with outputs [Bound, payload of any non-Bound type, Bound], all unspent; amounts within the supply; parent not indexed (multiplier 1)", covers=1)
 M("C13", "c13_atr_inputs_checked_against_ledger", ["Transaction::validate_against_utxoset"], "transactions of every type except Fee with 1..=2 inputs; Slip::validate verdicts free", covers=1)
 M("C13", "c13_index_tip_follows_reorg", ["BlockRing::on_chain_reorganization", "RingItem::on_chain_reorganization"], "same as c03_m_blockring_reorg: ring of 4 slots, wrap-around included", covers=2)
+M("C13", "c13_tx_unwind_restores_inputs", ["Transaction::on_chain_reorganization", "Slip::on_chain_reorganization"], "same as c03_m_tx_wind_unwind: 1..=2 inputs x 1..=2 outputs, every transaction type, finite-map utxoset", covers=8)
 M("C13", "c13_atr_inputs_recorded", [CLO], "ATR-typed transactions with 1..=2 inputs, one arbitrary key already recorded for the block")
 
 # ============================================================================== C04 (and the composition half of C03)
@@ -250,6 +251,7 @@ M("C19", "c19_remove_old_slips", ["Wallet::remove_old_slips", "Wallet::delete_sl
 M("C19", "c19_generate_slips", ["Wallet::generate_slips"], "wallets with 1..=2 unspent slips (thorough 3); requested amount, latest block id, genesis period symbolic; conservation of inputs/change in u128; funds outside the expiry margin that cover the request are gathered", covers=2)
 
 M("C19", "c19_reorg_records_ledger_location", ["Wallet::on_chain_reorganization (longest-chain branch)"], "block of two transactions: first of any type (SPV placeholder with symbolic txs_replacements included), second paying the wallet; NFT detection answers false", covers=1)
+M("C19", "c19_refused_transfer_leaves_wallet", ["Transaction::create_with_multiple_payments"], "one payment, any amount / fee / balance within the supply; Wallet::generate_slips an explicit call event", covers=1)
 # ============================================================================== C17
 PROPERTY_ASSUMPTIONS["C17"] = [
     "one step: Peer::handle_handshake_response from an arbitrary Peer state and response; the signature check crypto::verify is a free predicate V (consistent: asked once per step), sign / I/O / configuration / version comparison are free; every poll Ready",
@@ -326,3 +328,4 @@ M("C11", "c11_gt_payload", ["Mempool::add_golden_ticket (async body)", "GoldenTi
 M("C11", "c11_network_handshake_gate", ["Network::handle_handshake_response (async body)"], "same as c17_network_gate: a rejected response from a peer in any state ends in a plain return, no panic", covers=1)
 M("C11", "c11_shared_ancestor_total", ["Blockchain::generate_last_shared_ancestor", "generate_last_shared_ancestor_when_peer_ahead", "generate_last_shared_ancestor_when_peer_behind"], "every peer latest-block id, fork id and own tip (u64); index look-ups answer Some(hash) with the first compared byte equal (the other mismatch case is folded); overflow checks on (dev-profile semantics)", covers=1)
 M("C11", "c11_fetched_block_decoder_total", ["Block::deserialize_from_net"], "same as c10_m_block: every buffer of length 0..=565 (thorough 0..=725)", covers=1)
+M("C11", "c11_tx_validate_total", ["Transaction::validate"], "every type, 0/1/3 inputs x 0..=2 outputs, slip fields symbolic (amounts within the supply, slip index < 255); signature and routing verdicts explicit free inputs; panics that hinge on other unmodelled callees are not judged", covers=1)
